@@ -12,6 +12,9 @@ use sux::utils::{Sig, ToSig};
 
 pub struct C17;
 
+/// Open known finding: heavy duplicate multiplicity in a sharded build loops on MaxShardTooBig.
+pub const KF_HEAVY_DUPS: &str = "heavy-dups-maxshard-loop";
+
 #[derive(Clone, Debug, Hash)]
 pub struct Spec {
     pub row: u8,
@@ -63,6 +66,14 @@ where
         }
     }
     let n = keys.len();
+    // open known finding: a key repeated so often that its shard is always
+    // more than 1% above the average makes every attempt end in
+    // MaxShardTooBig, which build_loop retries without bound
+    if let Some((m, _, _)) = spec.dup {
+        if m >= 1000 && n0 >= 100_000 && cx.excluded(KF_HEAVY_DUPS) {
+            return Ok(());
+        }
+    }
     let mut cfg = spec.cfg.clone();
     if has_dup {
         // the property covers duplicates only when checking is enabled
@@ -224,6 +235,143 @@ pub fn enum_count() -> u64 {
     per_row * ENUM_ROWS.len() as u64 * 2
 }
 
+
+// ---- the crate's own line lenders over a faulty seekable source ------------------
+
+/// A `Read + Seek` source over bytes with an injected fault: the k-th seek
+/// fails, or the read reaching byte offset `b` after `after_seeks` seeks fails.
+struct Faulty {
+    data: std::io::Cursor<Vec<u8>>,
+    seeks: usize,
+    fail_seek_at: Option<usize>,
+    fail_read: Option<(usize, u64)>,
+    reached: Arc<Mutex<bool>>,
+}
+
+impl std::io::Read for Faulty {
+    fn read(&mut self, buf: &mut [u8]) -> std::io::Result<usize> {
+        if let Some((after, off)) = self.fail_read {
+            if self.seeks >= after && self.data.position() + buf.len() as u64 > off && self.data.position() <= off {
+                *self.reached.lock().unwrap() = true;
+                self.fail_read = None;
+                return Err(std::io::Error::other("injected read fault"));
+            }
+        }
+        self.data.read(buf)
+    }
+}
+
+impl std::io::Seek for Faulty {
+    fn seek(&mut self, pos: std::io::SeekFrom) -> std::io::Result<u64> {
+        // position queries are not rewinds
+        if !matches!(pos, std::io::SeekFrom::Current(0)) {
+            self.seeks += 1;
+            if self.fail_seek_at == Some(self.seeks) {
+                *self.reached.lock().unwrap() = true;
+                return Err(std::io::Error::other("injected seek fault"));
+            }
+        }
+        self.data.seek(pos)
+    }
+}
+
+fn has_io_fault(e: &anyhow::Error) -> bool {
+    e.chain().any(|c| c.to_string().contains("injected"))
+}
+
+fn crate_lender_case(cx: &mut Ctx, u: &mut Unstructured) -> R {
+    use sux::bits::BitFieldVec;
+    use sux::func::shard_edge::FuseLge3Shards;
+    use sux::func::VBuilder;
+    use sux::utils::{GzipLineLender, LineLender, ZstdLineLender};
+    let kind = u.int_in_range(0u8..=2).unwrap_or(0);
+    // sizes for which retries are certain (duplicates) or very likely (101..115 keys)
+    let with_dup: bool = u.arbitrary().unwrap_or(true);
+    let n = if with_dup { u.int_in_range(1usize..=300).unwrap_or(20) } else { u.int_in_range(101usize..=112).unwrap_or(105) };
+    let filter: bool = u.arbitrary().unwrap_or(false);
+    let fail_seek_at = match u.int_in_range(0u8..=3).unwrap_or(1) {
+        0 => None,
+        _ => Some(u.int_in_range(1usize..=3).unwrap_or(1)),
+    };
+    let mut keys: Vec<String> = (0..n).map(|i| format!("key{i}")).collect();
+    if with_dup {
+        let k = keys[n / 2].clone();
+        keys.push(k);
+    }
+    let text: Vec<u8> = keys.iter().flat_map(|k| k.bytes().chain([b'\n'])).collect();
+    let fail_read = if fail_seek_at.is_none() { Some((u.int_in_range(0usize..=2).unwrap_or(1), u.int_in_range(0u64..=text.len() as u64 + 10).unwrap_or(3))) } else { None };
+    cx.hash(&("crate-lender", kind, n, with_dup, filter, fail_seek_at, fail_read));
+    cx.describe(|| format!("crate lender kind {kind} over a faulty source: {} keys (dup: {with_dup}), filter: {filter}, fail_seek_at {fail_seek_at:?}, fail_read {fail_read:?}", keys.len()));
+    cx.label("crate_lender_over_faulty_source");
+    cx.label(["LineLender", "ZstdLineLender", "GzipLineLender"][kind as usize]);
+    let reached = Arc::new(Mutex::new(false));
+    let bytes = match kind {
+        0 => text.clone(),
+        1 => zstd::encode_all(&text[..], 1).unwrap(),
+        _ => {
+            use std::io::Write;
+            let mut e = flate2::write::GzEncoder::new(Vec::new(), flate2::Compression::fast());
+            e.write_all(&text).unwrap();
+            e.finish().unwrap()
+        }
+    };
+    // for compressed streams the read fault offset refers to compressed bytes
+    let fail_read = fail_read.map(|(a, o)| (a, o.min(bytes.len() as u64)));
+    let src = Faulty { data: std::io::Cursor::new(bytes), seeks: 0, fail_seek_at, fail_read, reached: reached.clone() };
+    let total = keys.len();
+    let values = Arc::new((0..total).collect::<Vec<usize>>());
+    let vl = PlanLender::new(values.clone(), Fault::None, "values", Arc::new(Mutex::new(Log::default())));
+    let builder = || VBuilder::<usize, BitFieldVec<usize>, [u64; 2], FuseLge3Shards>::default().check_dups(with_dup);
+    macro_rules! go {
+        ($lender:expr) => {{
+            let lender = $lender;
+            if filter {
+                let r = cx.must("try_build_filter", || builder().try_build_filter(lender, 8, dsi_progress_logger::no_logging![]))?;
+                r.map(|f| {
+                    let bad: Vec<usize> = (0..total).filter(|i| !f.contains(keys[*i].as_str())).take(3).collect();
+                    (f.len(), bad)
+                })
+            } else {
+                let r = cx.must("try_build_func", || builder().try_build_func(lender, vl, dsi_progress_logger::no_logging![]))?;
+                r.map(|f| {
+                    let bad: Vec<usize> = (0..total).filter(|i| f.get(keys[*i].as_str()) != *i).take(3).collect();
+                    (f.len(), bad)
+                })
+            }
+        }};
+    }
+    let out: anyhow::Result<(usize, Vec<usize>)> = match kind {
+        0 => go!(LineLender::new(std::io::BufReader::new(src))),
+        1 => match ZstdLineLender::new(src) {
+            Ok(l) => go!(l),
+            Err(e) => Err(e.into()),
+        },
+        _ => match GzipLineLender::new(src) {
+            Ok(l) => go!(l),
+            Err(e) => Err(e.into()),
+        },
+    };
+    let reached = *reached.lock().unwrap();
+    cx.label_if(reached, "fault_reached");
+    cx.nontrivial_if(reached);
+    match out {
+        Ok((len, bad)) => {
+            cx.check(!reached, "ok_after_fault", || format!("the build returned Ok although the key source reported an I/O error (kind {kind}, {total} keys, dup {with_dup}, fail_seek_at {fail_seek_at:?}, fail_read {fail_read:?}); len() = {len}"))?;
+            cx.check(!with_dup, "ok_with_dups", || "the build returned Ok although the keys contain a duplicate and check_dups is enabled".to_string())?;
+            cx.check_eq(len, total, "len", || "len() of the returned structure".into())?;
+            cx.check(bad.is_empty(), "wrong_function", || format!("Ok returned with a structure that fails on supplied keys {bad:?}"))?;
+        }
+        Err(e) => {
+            if reached {
+                cx.check(has_io_fault(&e), "error_lost", || format!("the source error was not returned to the caller; got: {e:#}"))?;
+            } else if !with_dup {
+                return Err(Fail::mismatch("spurious_error", format!("spurious_error: the build failed although keys are distinct and no fault was reached: {e:#}")));
+            }
+        }
+    }
+    Ok(())
+}
+
 impl Property for C17 {
     fn id(&self) -> &'static str {
         "C17"
@@ -233,16 +381,21 @@ impl Property for C17 {
             Segment::enumerated("all-fault-plans-small-n", enum_count(), &[2]),
             Segment::random("random-faults-and-dups", tier.pick(6_000, 80_000), &[0], 24, 120),
             Segment::random("dups-in-large-sets", tier.pick(24, 400), &[1], 24, 120),
+            Segment::random("crate-lenders-over-faulty-sources", tier.pick(3_000, 40_000), &[3], 16, 40),
         ]
     }
     fn watchdog_s(&self) -> u64 {
         300
     }
     fn rule(&self) -> &'static str {
-        "fault sequences owned by the harness: keys and values come from lenders implementing RewindableIoLender with a fault plan (fail at item j of pass p, j = n meaning at the end of the stream; fail the rewind after pass p; none). Enumerated completely for 6 table rows x n in {0,1,2,3,5,8,13,21} x stream x p in 0..=4 x j in 0..=n and rewind faults after passes 0..=3, each with and without a duplicate key (duplicates with check_dups force exactly three retry passes, so faults in passes 1..=3 are reached deterministically); plus random (row, n<=300, configuration, function/filter, fault plans, duplicate plans with multiplicity 2/3/10 at first/last/interior positions, adjacent or spread), plus duplicates in sets of 1e5..2e5 keys crossing shard boundaries. Oracle: a fault that was reached => Err whose chain contains the injected error; duplicates with check_dups => Err after exactly 3 rewinds; otherwise Ok with len()==n and every pair verified; Ok with any wrong pair is a violation in all cases; more rewinds than the deterministic attempt bound => nonconv. Non-trivial: the fault was reached in a retry pass, or a duplicate not adjacent to its twin; distinct = distinct hash of the decoded spec."
+        "fault sequences owned by the harness: keys and values come from lenders implementing RewindableIoLender with a fault plan (fail at item j of pass p, j = n meaning at the end of the stream; fail the rewind after pass p; none). Enumerated completely for 6 table rows x n in {0,1,2,3,5,8,13,21} x stream x p in 0..=4 x j in 0..=n and rewind faults after passes 0..=3, each with and without a duplicate key (duplicates with check_dups force exactly three retry passes, so faults in passes 1..=3 are reached deterministically); plus random (row, n<=300, configuration, function/filter, fault plans, duplicate plans with multiplicity 2/3/10 at first/last/interior positions, adjacent or spread), plus duplicates (multiplicity up to 3000) in sets of 1e5..2e5 keys crossing shard boundaries, plus the crate's own LineLender/ZstdLineLender/GzipLineLender over a harness Read+Seek source whose k-th seek or a read at a given offset fails (retries forced by a duplicate or made likely by 101..112 keys). Oracle: a fault that was reached => Err whose chain contains the injected error; duplicates with check_dups => Err after exactly 3 rewinds; otherwise Ok with len()==n and every pair verified; Ok with any wrong pair is a violation in all cases; more rewinds than the deterministic attempt bound => nonconv. Non-trivial: the fault was reached in a retry pass, or a duplicate not adjacent to its twin; distinct = distinct hash of the decoded spec."
     }
     fn run(&self, data: &[u8], cx: &mut Ctx) -> R {
         let (mode, rest) = data.split_first().unwrap_or((&0, &[]));
+        if *mode == 3 {
+            let mut u = Unstructured::new(rest);
+            return crate_lender_case(cx, &mut u);
+        }
         let spec = match *mode {
             2 => {
                 let mut b = [0u8; 8];
@@ -255,7 +408,7 @@ impl Property for C17 {
                 let n = [100_000usize, 150_000, 199_000, 120_001][u.int_in_range(0usize..=3).unwrap_or(0)];
                 let mut cfg = Cfg::decode(&mut u);
                 cfg.check_dups = true;
-                Spec { row: u.int_in_range(0u8..=N_ROWS - 1).unwrap_or(0), n, filter: u.arbitrary().unwrap_or(false), key_style: 2, val_kind: 3, cfg, key_fault: Fault::None, val_fault: Fault::None, dup: Some(([2usize, 3, 10][u.int_in_range(0usize..=2).unwrap_or(0)], u.int_in_range(0u8..=2).unwrap_or(2), u.arbitrary().unwrap_or(false))) }
+                Spec { row: u.int_in_range(0u8..=N_ROWS - 1).unwrap_or(0), n, filter: u.arbitrary().unwrap_or(false), key_style: 2, val_kind: 3, cfg, key_fault: Fault::None, val_fault: Fault::None, dup: Some(([2usize, 3, 10, 3000][u.int_in_range(0usize..=3).unwrap_or(0)], u.int_in_range(0u8..=2).unwrap_or(2), u.arbitrary().unwrap_or(false))) }
             }
             _ => {
                 let mut u = Unstructured::new(rest);
